@@ -18,7 +18,7 @@ import numpy as np
 import core
 import gen
 
-PROOF_MODULES = ["UnytProofs.C19", "UnytProofs.Real.C19Allclose"]
+PROOF_MODULES = ["UnytProofs.C19", "UnytProofs.Real.C19Allclose", "UnytProofs.Real.C19Affine", "UnytProofs.Real.C19AffineUnits", "UnytProofs.C19CompHelper"]
 
 # relative safety margin around the tolerance threshold: cases closer than this (in exact
 # arithmetic) are "borderline" — their verdict legitimately depends on floating-point rounding
@@ -108,15 +108,17 @@ class Arg:
             return f"B~{1 if k == 'bare_scalar' else 0}~{vals_wire(self.vals)}"
         return "L~" + "|".join(f"{core.f2b(v)};{core.f2b(u.scale)};{core.f2b(u.offset)};{u.dim}" for v, u in zip(self.vals, self.units))
 
-    # what the contract sees: (dimension, [exact SI magnitudes]) — zero-offset units only
+    # what the contract sees: (dimension, [exact SI magnitudes]).  A unit is (base_value s, base_offset o):
+    # the reading v denotes the SI magnitude (v - o) * s (o = 0 for all but the temperature scales:
+    # 0 degC = (0 + 273.15) * 1 K, 32 degF = (32 + 459.67) * 5/9 K)
     def si(self):
         if self.kind in ("qarr", "qscalar"):
-            return self.unit.dim, [F(v) * F(self.unit.scale) for v in self.vals]
+            return self.unit.dim, [(F(v) - F(self.unit.offset)) * F(self.unit.scale) for v in self.vals]
         if self.kind in ("qlist", "qtuple"):
             dims = {u.dim for u in self.units}
             if len(dims) != 1:
                 return None, None
-            return dims.pop(), [F(v) * F(u.scale) for v, u in zip(self.vals, self.units)]
+            return dims.pop(), [(F(v) - F(u.offset)) * F(u.scale) for v, u in zip(self.vals, self.units)]
         return DIMLESS, [F(v) for v in self.vals]
 
     def has_offset(self):
@@ -177,13 +179,20 @@ def broadcast(a, b):
     return None
 
 
-def spec_allclose(actual, desired, rtol, atol, bare_tol_unit=None):
+def spec_allclose(actual, desired, rtol, atol, bare_tol_unit=None, elems=None, atol_si_override=None):
     """The documented contract on exact rationals.  Returns (verdict, borderline, note) where
-    verdict ∈ {True, False, 'RuntimeError', 'shape', None}; None = outside the contract's domain
-    (offset units).  `bare_tol_unit` overrides the unit a bare atol is read in (used to classify
-    what a deviating implementation did)."""
-    if actual.has_offset() or desired.has_offset() or (atol.unit is not None and atol.unit.offset != 0):
+    verdict ∈ {True, False, 'RuntimeError', 'shape', None}; None = outside the contract's domain.
+    Offset (temperature-scale) units are inside the domain when the comparison is affine-invariant:
+    rtol == 0 and atol is a difference (bare, or in a zero-offset unit); the magnitudes compared are
+    the absolute SI ones, `(v - base_offset) * base_value`.  With rtol != 0 "within rtol of the
+    reference" depends on the zero of the scale, so no unit-independent contract exists: None.
+    `bare_tol_unit` overrides the unit a bare atol is read in (used to classify what a deviating
+    implementation did).  `elems`, when a list, receives one (verdict, borderline) per element pair."""
+    if atol.unit is not None and atol.unit.offset != 0:
         return None, False, "offset-unit"
+    if actual.has_offset() or desired.has_offset():
+        if rtol.val != 0.0:
+            return None, False, "offset-unit"
     da, sa = actual.si()
     dd, sd = desired.si()
     if da is None or dd is None:
@@ -204,6 +213,8 @@ def spec_allclose(actual, desired, rtol, atol, bare_tol_unit=None):
     else:
         tdim, tscale = bare_tol_unit if bare_tol_unit is not None else desired.unit_for_bare_tol()
         t = F(atol.val) * tscale
+    if atol_si_override is not None:  # the SI size a suspected reading gives atol (classification only)
+        t = atol_si_override
     pairs = broadcast(sa, sd)
     if pairs is None:
         return "shape", False, "shapes do not broadcast"
@@ -216,8 +227,14 @@ def spec_allclose(actual, desired, rtol, atol, bare_tol_unit=None):
         ref = max(abs(a), abs(d), abs(t))
         if abs(margin) <= BORDER * ref:
             some_border = True  # this element's verdict may legitimately depend on rounding
+            if elems is not None:
+                elems.append((None, True))
         elif not (lhs <= rhs or a == d):
             decisive_false = True
+            if elems is not None:
+                elems.append((False, False))
+        elif elems is not None:
+            elems.append((True, False))
     verdict = not decisive_false
     border = some_border and not decisive_false
     return verdict, border, "values"
@@ -379,6 +396,11 @@ def run(tier, seed):
     except Exception:  # noqa: BLE001  translator failed: reported through chk.proof["broken"]
         flags = {"bare_atol_in_desired_unit": None, "dimension_names": []}
     chk.extra["bare_atol_in_desired_unit"] = flags.get("bare_atol_in_desired_unit")
+    try:  # the helper program the driver interprets, as translated from the live source on this run
+        hp = json.load(open(os.path.join(core.BUILD, "extract_c19_handlers.json"), encoding="utf-8"))
+        chk.extra["comp_helper_program"] = {"branches": hp.get("comp_helper"), "ret": hp.get("ret")}
+    except Exception:  # noqa: BLE001  translator failed: reported through chk.proof["broken"]
+        chk.extra["comp_helper_program"] = None
     fams = unit_families(tier, rng)
     fam_units = {}
     for k, names in fams.items():
@@ -443,6 +465,11 @@ def run(tier, seed):
             a = Arg(a.kind, [rng.uniform(250, 350) for _ in a.vals], ua)
             d = Arg(d.kind, [float(unyt.unyt_quantity(v, ua.name).to(ud.name).d) * (1 + rng.choice([0.0, 1e-9, 1e-3])) for v in (a.vals if len(d.vals) == len(a.vals) else a.vals[:1] * len(d.vals))], ud)
             argmode = "offset-units"
+            if rng.random() < 0.5:  # rtol = 0: the affine-invariant comparison, inside the direct oracle
+                rk, rtol_si = "zero", 0.0
+            if tk == "qty":  # a temperature difference in a zero-offset unit
+                ut = rng.choice([u for u in temp_units if u.offset == 0])
+                atol_si = rng.uniform(0.5, 5.0) * 10 ** rng.randint(-3, 0)
         bare_unit_dim, bare_unit_scale = d.unit_for_bare_tol()
         if rk == "bare" or rk == "zero" or rk == "default":
             rtol = Tol(rtol_si)
@@ -512,6 +539,12 @@ def run(tier, seed):
                         if atol_suspect:
                             cands.append(("reads-rtol-by-bare-value", Tol(rtol.val), a.unit_for_bare_tol()))
                     alts = [(nm,) + spec_allclose(a, d, rt_, atol, bare_tol_unit=bu_)[:2] for nm, rt_, bu_ in cands]
+                    a_unit = a.unit if a.unit is not None else (a.units[0] if a.units else None)
+                    if atol.unit is not None and a_unit is not None and a_unit.offset != 0 and atol.unit.dim == a_unit.dim:
+                        # an atol quantity sent through in_units to a scale with a zero of its own is moved like a
+                        # point: its SI size becomes SI_u(atol) - SI_actual(0)
+                        t_point = (F(atol.val) - F(atol.unit.offset)) * F(atol.unit.scale) + F(a_unit.offset) * F(a_unit.scale)
+                        alts.append(("reads-qty-atol-as-point-on-offset-scale",) + spec_allclose(a, d, rtol, atol, atol_si_override=t_point)[:2])
                     for nm, alt, b2 in alts:  # a reading that decisively explains the verdict
                         if alt is not None and not b2 and alt == bool(got[1]):
                             why = nm
@@ -581,9 +614,38 @@ def run(tier, seed):
             else:
                 a = Arg(a.kind, a.vals, U("dimensionless"))
             argmode = "dimensionless-qty/qty"
+        elif mode < 0.42:
+            # temperature scales (units with a zero point of their own): both operands denote absolute
+            # temperatures; the obtained ones sit at chosen multiples of the tolerance around the
+            # reference ones.  With rtol == 0 the comparison is affine-invariant and the direct oracle
+            # applies (absolute SI magnitudes); with rtol != 0 only the correspondence does.
+            ua, ub = rng.choice(temp_units), rng.choice(temp_units)
+            if rng.random() < 0.7:
+                rtol_si = 0.0
+            atol_K = rng.choice([0.0, 1.0, 1.0]) * rng.uniform(0.5, 5.0) * 10 ** rng.randint(-3, 0)
+            t_lo, t_hi = atol_K * min(1.0, ub.scale / ua.scale), atol_K * max(1.0, ub.scale / ua.scale)
+            m = max(len(a.vals), len(b.vals))
+            tb, ta = [], []
+            for _ in range(m):
+                ref_K = rng.uniform(150.0, 600.0)
+                k = rng.choice([0.0, 0.3, 0.3, 0.8, 1.25, 3.0, 3.0])
+                tol = (t_lo if k < 1 else t_hi) + rtol_si * ref_K
+                sign = rng.choice([-1.0, 1.0])
+                tb.append(ref_K)
+                ta.append((ref_K if k < 1 else ref_K * (1 + sign * 1e-3)) if tol == 0.0 else ref_K + sign * k * tol)
+            if len(b.vals) == 1:  # one reference, every obtained value keeps its deviation from it
+                ta = [tb[0] + (x - y) for x, y in zip(ta, tb)]
+                tb = tb[:1]
+            a = Arg(a.kind, [x / ua.scale + ua.offset for x in ta[:len(a.vals)]], ua)
+            b = Arg(b.kind, [x / ub.scale + ub.offset for x in (tb * m)[:len(b.vals)]], ub)
+            atol_si = None
+            atol = Tol(atol_K / ua.scale)
+            argmode = "offset-units"
+            chk.count(f"np.allclose:offset-units:{'same' if ua.name == ub.name else 'factor-1' if ua.scale == ub.scale else 'offset-and-factor' if (ua.offset or ub.offset) else 'factor-only'}")
         if a.kind.startswith("bare") and b.kind.startswith("bare"):
             continue
-        atol = Tol(atol_si / float(b.unit_for_bare_tol()[1]))
+        if atol_si is not None:
+            atol = Tol(atol_si / float(b.unit_for_bare_tol()[1]))
         rtol = Tol(rtol_si)
         A, B = a.build(), b.build()
         got = outcome(lambda: np.allclose(A, B, rtol=rtol.val, atol=atol.val))
@@ -620,8 +682,35 @@ def run(tier, seed):
                         raw = spec_allclose(Arg("bare_list", a.vals), Arg("bare_list", b.vals), rtol, atol, bare_tol_unit=(DIMLESS, F(1)))
                         if raw[0] is not None and (raw[1] or raw[0] == bool(got[1])):
                             why = "null-unit-side-compared-raw"
+                    if why == "other" and argmode == "offset-units":
+                        why = "other|offset-units"
                     chk.fail(f"np.allclose|verdict|{why}", f"np.allclose gave {bool(got[1])}, the contract on exact SI magnitudes gives {want}",
                              {"python": snip(setup + f"v = np.allclose(a, b, rtol=r, atol=t)\nassert bool(v) == {want}, v\n")})
+        # numpy.isclose: the element verdicts against the contract, element by element.  A bare atol is
+        # read by the handler in the first operand's unit (kept finding for allclose), so an element
+        # is judged only where both readings of the bare atol (first / reference operand's unit) give
+        # the same decisive verdict — there no reading of the tolerance can excuse a deviation
+        null_like = any(x.unit is not None and x.unit.dim == DIMLESS and x.unit.scale == 1.0 for x in (a, b))
+        # (a side whose unit equals NULL_UNIT is compared raw: kept finding null-unit-side-compared-raw, reported for allclose)
+        if want in (True, False) and argmode in ("qty/qty", "offset-units") and not null_like:
+            e_ref, e_first = [], []
+            spec_allclose(a, b, rtol, atol, elems=e_ref)
+            spec_allclose(a, b, rtol, atol, bare_tol_unit=a.unit_for_bare_tol(), elems=e_first)
+            if goti[0] == "err":
+                chk.fail(f"np.isclose|raised-{goti[1]}|{argmode}", f"np.isclose raised {goti[1]} on commensurable arguments",
+                         {"python": snip(setup + "o = _o(lambda: np.isclose(a, b, rtol=r, atol=t))\nassert o[0] == 'ok', o\n")})
+            else:
+                gl = [bool(x) for x in np.atleast_1d(goti[1]).tolist()]
+                chk.count("np.isclose:elements-judged")
+                if len(gl) != len(e_ref):
+                    chk.fail(f"np.isclose|shape|{argmode}", f"np.isclose returned {len(gl)} elements for {len(e_ref)} broadcast pairs",
+                             {"python": snip(setup + f"v = np.atleast_1d(np.isclose(a, b, rtol=r, atol=t))\nassert v.size == {len(e_ref)}, v\n")})
+                else:
+                    bad = [i for i, (g_, x, y) in enumerate(zip(gl, e_ref, e_first)) if x == y and x[0] is not None and g_ != x[0]]
+                    if bad:
+                        i = bad[0]
+                        chk.fail(f"np.isclose|element-verdict|{argmode}", f"np.isclose element {i} is {gl[i]}, the contract on exact SI magnitudes gives {e_ref[i][0]} (whichever operand's unit the bare atol is read in)",
+                                 {"python": snip(setup + f"v = np.atleast_1d(np.isclose(a, b, rtol=r, atol=t))\nassert bool(v[{i}]) == {e_ref[i][0]}, v\n")})
         impl = ("ok", bool(got[1])) if got[0] == "ok" else ("err", got[1])
         ask("c19.allclose", [a.wire(), b.wire(), str(core.f2b(rtol.val)), str(core.f2b(atol.val))], impl, setup + "np.allclose(a, b, rtol=r, atol=t)", border)
         if goti[0] == "ok":
@@ -1162,5 +1251,11 @@ def witness_replay(chk, flags):
     chk.extra["witness_bare_atol"] = {"allclose_units(1 m, 150 cm, rtol=0, atol=0.6)": v1, "swapped": v2}
     if fixed is False and (v1, v2) != (True, False):
         chk.disagree("witness", f"bare_atol_witness predicts (True, False) on the unrepaired code, got {(v1, v2)}")
+    # C19_affine_atol_counterexample (kept finding reads-qty-atol-as-point-on-offset-scale)
+    v3 = bool(allclose_units(Q(0.0, "degC"), Q(0.5, "degC"), rtol=0, atol=Q(1.0, "K")))
+    chk.extra["witness_qty_atol_on_offset_scale"] = {"allclose_units(0 degC, 0.5 degC, rtol=0, atol=1 K)": v3}
+    if v3:
+        chk.disagree("witness", "C19_affine_atol_counterexample predicts False for allclose_units(0 degC, 0.5 degC, rtol=0, atol=1 K), got True: "
+                                "the finding is repaired — edit atolInActualUnit (.qty arm) and retire the counterexample")
     if fixed is True and (v1, v2) != (False, True):
         chk.disagree("witness", f"bare_atol_witness predicts (False, True) on the repaired code, got {(v1, v2)}")
